@@ -283,7 +283,7 @@ func newWorld(t *testing.T, out *hx.Out, rng *rand.Rand) *world {
 		w.s.App.AccountKeeper.SetAccount(ctx, w.vestingAccount(base, a.vest))
 		w.add(a)
 	}
-	for i := 0; i < 6; i++ {
+	for i := 0; i < 8; i++ { // 11..13 ethereum-key accounts, 14..16 dual, 17 and 18 ethereum addresses that do not exist on chain (never funded)
 		var k *ecdsa.PrivateKey
 		for k == nil {
 			bz := make([]byte, 32)
@@ -291,7 +291,7 @@ func newWorld(t *testing.T, out *hx.Out, rng *rand.Rand) *world {
 			k, _ = crypto.ToECDSA(bz)
 		}
 		a := &actor{id: 11 + i, addr: sdk.AccAddress(crypto.PubkeyToAddress(k.PublicKey).Bytes()), eth: k}
-		if i >= 3 {
+		if i >= 3 && i < 6 {
 			// dual: the address also carries an auth account with a secp256k1 key, so that it can stand on either side of
 			// a migration (old source as target, old target as source, a pair reversed)
 			secret := make([]byte, 32)
@@ -1565,6 +1565,131 @@ func (w *world) opMigrate() {
 	w.migrate(fromID, fromAddr, to, signer, order, sig, mode)
 }
 
+const idFeeCollector = 903
+const idFresh = 17 // an ethereum address without account on chain (with VERIF_C14_FRESH=1; otherwise funded like the others)
+
+// freshTarget: targets that do not exist on chain are explored only with VERIF_C14_FRESH=1 (unchanged code: an accepted
+// migration of a source without liquid coins leaves such a target without account, and the end blocker can then never pay
+// its matured unbonding entries — fixes/C14-target-account.md)
+func freshTarget() bool { return os.Getenv("VERIF_C14_FRESH") == "1" }
+
+// opMigrateTx: a migration delivered as a signed transaction in a real block — FinalizeBlock: baseapp's ValidateBasic (the
+// pair signature), the ante handler (the transaction must be signed by the source's account key; the fee is deducted from
+// the source BEFORE the migration moves its balances), the message router and handler, then the end blockers of that very
+// block.  Op line `txblock dt fee txsigner from to pair-signer order`: the model composes fee payment, migration and block.
+func (w *world) opMigrateTx(dt int64) {
+	var srcs, eths []*actor
+	for _, a := range w.actors {
+		if a.priv != nil && a.vest == nil && a.id != 6 && !a.dual { // (the ante handler wants the public key to hash to the address: not so for the dual accounts)
+			srcs = append(srcs, a)
+		}
+		if a.eth != nil {
+			eths = append(eths, a)
+		}
+	}
+	from := hx.Pick(w.rng, srcs)
+	for i := 0; i < 8 && w.gone[from.id] && w.rng.Intn(4) > 0; i++ {
+		from = hx.Pick(w.rng, srcs)
+	}
+	to := hx.Pick(w.rng, eths)
+	for i := 0; i < 8 && (w.gone[to.id] || to.id == from.id) && (to.id == from.id || w.rng.Intn(4) > 0); i++ {
+		to = hx.Pick(w.rng, eths)
+	}
+	if to.id == from.id {
+		return
+	}
+	txSigner := from
+	if w.rng.Intn(6) == 0 { // the transaction is built as the source's but signed by another account's key
+		txSigner = hx.Pick(w.rng, srcs)
+	}
+	signer, order, mode := to.id, "ft", "ok"
+	sig := w.sign(to.eth, from.addr, to.addr)
+	switch w.rng.Intn(12) {
+	case 0:
+		order, mode = "tf", "swap"
+		sig = w.sign(to.eth, to.addr, from.addr)
+	case 1:
+		o := hx.Pick(w.rng, eths)
+		for o == to {
+			o = hx.Pick(w.rng, eths)
+		}
+		signer, mode = o.id, "other"
+		sig = w.sign(o.eth, from.addr, to.addr)
+	}
+	msg := &migratetypes.MsgMigrateAccount{From: from.addr.String(), To: common.BytesToAddress(to.addr).String(), Signature: sig}
+	bz, err := w.signedTx([]sdk.Msg{msg}, from.addr, txSigner.priv)
+	if err != nil {
+		w.out.Violate("harness: cannot build the migration transaction: " + err.Error())
+		return
+	}
+	fee := sdkmath.NewInt(1_000_000_000_000).MulRaw(8_000_000)
+	roles := w.openInvolvement(from.addr, to.addr)
+	role := w.roleHistory(from.id, to.id)
+	pf, pt := w.portfolio(from.addr), w.portfolio(to.addr)
+	totals := w.totals()
+	seqBefore := w.s.App.AccountKeeper.GetAccount(w.s.Ctx, from.addr).GetSequence()
+	res := w.endBlockTxs(dt, [][]byte{bz})
+	code, log := uint32(999), ""
+	if len(res) == 1 {
+		code, log = res[0].Code, res[0].Log
+	}
+	antePassed := w.s.App.AccountKeeper.GetAccount(w.s.Ctx, from.addr).GetSequence() != seqBefore
+	kindOf := "ok"
+	switch {
+	case code == 0:
+	case !antePassed && code == 18: // ErrInvalidRequest: baseapp's ValidateBasic, before the ante handler
+		kindOf = errKind(log)
+	case !antePassed:
+		kindOf = "err:ante"
+	default:
+		kindOf = errKind(log)
+	}
+	w.out.Count(fmt.Sprintf("txblock:tx-signed-by-source=%v,pair=%s=%s", txSigner == from, mode, kindOf))
+	for _, r := range roles {
+		w.out.Count("txblock-gov:" + r.who + "-" + r.role + "-" + r.status + "=" + kindOf)
+	}
+	w.emit(fmt.Sprintf("txblock %d %s %d %d %d %d %s", dt, fee, txSigner.id, from.id, to.id, signer, order), kindOf)
+	if strings.HasPrefix(kindOf, "err:other") || kindOf == "panic" {
+		w.out.Violate("migrate: unexpected failure kind of a migration transaction: " + kindOf)
+	}
+	w.invariants("after a block with a migration transaction")
+	w.consistency("after a block with a migration transaction")
+	if kindOf != "ok" {
+		return
+	}
+	// ---- monitors: an accepted migration transaction ------------------------------------------------------
+	if txSigner != from {
+		w.out.Violate("signature: a migration transaction not signed by the source's account key was accepted by FinalizeBlock")
+	}
+	if mode != "ok" {
+		w.out.Violate("signature: migration transaction accepted with pair signature mode " + mode + " (not the target key over prefix,from,to)")
+	}
+	if role != "" {
+		w.out.Violate("reuse: migration accepted although an address took part in an earlier migration (" + role + ")")
+	}
+	for _, r := range roles {
+		w.out.Violate(fmt.Sprintf("gov: migration accepted while %s is %s of a proposal still in its %s period (proposal %d)", r.who, r.role, r.status, r.id))
+	}
+	if len(pt.dels) > 0 || len(pt.ubds) > 0 || len(pt.reds) > 0 {
+		w.out.Violate("target: migration accepted although the target has staking records")
+	}
+	w.gone[from.id], w.gone[to.id] = true, true
+	w.hist = append(w.hist, migRec{from, to})
+	if got := w.recordSlots(from.addr, to.addr); got != "rec-from,rec-to,dir-from,"+"dir-to" {
+		w.out.Violate("record: after an accepted migration not every record slot of source and target is set (" + got + ")")
+	}
+	if m := w.mentions(from.addr); len(m) > 0 {
+		w.out.Violate("stale: a raw key or value under " + m[0] + " still mentions the source address after a migration transaction")
+	}
+	// the end blocker of the same block may already have paid matured entries to the target: the source must be empty, and
+	// the target must hold its own and the source's coins minus the fee, plus what matured
+	if af := w.portfolio(from.addr); !af.empty() {
+		w.out.Violate("moved: source still holds balances or staking records after a migration transaction")
+	}
+	_ = totals
+	w.out.Nontrivial(fmt.Sprintf("txblock-ok:%d,%d,%d,%d", len(pf.bal), len(pf.dels), len(pf.ubds), len(pf.reds)))
+}
+
 // opGenesisRoundTrip (only with VERIF_C14_GENESIS=1, see fixes/C14-genesis-import.md): the migrate module's state is exported
 // and imported again, as a chain restarted from an exported genesis does; the addresses already used in a migration must
 // still be marked
@@ -1577,6 +1702,12 @@ func (w *world) opGenesisRoundTrip() {
 	}
 	am.InitGenesis(w.s.Ctx, w.s.App.AppCodec(), exported)
 	w.out.Count("genesis-roundtrip")
+	var gs migratetypes.GenesisState
+	w.s.App.AppCodec().MustUnmarshalJSON(exported, &gs)
+	w.out.Count(fmt.Sprintf("genesis-roundtrip:records=%d", len(gs.MigrateRecords)))
+	// the model runs ExportGenesis / InitGenesis as read from the code on its own records: every record and direction flag
+	// of the observation must be back
+	w.emit("genesis", "ok")
 	for id := range w.gone {
 		if a := w.byID[id]; a != nil && !w.s.App.MigrateKeeper.HasMigrateRecord(w.s.Ctx, a.addr) {
 			w.out.Violate("genesis: a migration record written by an accepted migration is exported by ExportGenesis but not restored by InitGenesis: the address can take part in a migration again after export/import")
@@ -1715,6 +1846,14 @@ func (w *world) migrate(fromID int, fromAddr sdk.AccAddress, to *actor, signer i
 	}
 	if rawTarget != "" {
 		w.out.Violate("target: an accepted migration's target had a staking record of its own (raw scan: " + rawTarget + ")")
+	}
+	// matured unbonding entries are paid out with the bank keeper's UndelegateCoins, which refuses an address without account
+	// AFTER it has debited the not-bonded pool, and the staking end blocker skips the error: the target must exist as an account
+	if w.s.App.AccountKeeper.GetAccount(w.s.Ctx, to.addr) == nil {
+		if p := w.portfolio(to.addr); len(p.ubds) > 0 {
+			w.out.Violate("account: after an accepted migration the target holds unbonding entries but does not exist as an account (the source had no liquid coin, so nothing was sent to it): the end blocker cannot pay the entries out when they mature — the coins leave the not-bonded pool and reach nobody")
+		}
+		w.out.Count("migrate-ok:target-without-account")
 	}
 	if e := w.entryTotals(); e != entriesBefore {
 		w.out.Violate("totals: number / balance of unbonding and redelegation entries changed by migration: " + entriesBefore + " -> " + e)
@@ -2030,6 +2169,9 @@ func (w *world) reset() {
 	}
 	// funding
 	for _, a := range w.actors {
+		if a.id >= idFresh && freshTarget() {
+			continue // stays without account until something is sent to it
+		}
 		for di, d := range w.denoms {
 			if di > 0 && w.rng.Intn(2) == 0 {
 				continue
@@ -2076,7 +2218,11 @@ func (w *world) randomOp() {
 		if os.Getenv("VERIF_C14_GENESIS") == "1" && len(w.hist) > 0 && w.rng.Intn(3) == 0 {
 			w.opGenesisRoundTrip()
 		}
-		w.opMigrate()
+		if w.rng.Intn(4) == 0 {
+			w.opMigrateTx(hx.Pick(w.rng, []int64{1, 1, 7, 100, 300}))
+		} else {
+			w.opMigrate()
+		}
 	default:
 		w.opChain()
 	}
@@ -2133,6 +2279,9 @@ func TestC14(t *testing.T) {
 			continue
 		case i == 14:
 			w.txScenario()
+			continue
+		case i == 15 && freshTarget():
+			w.freshTargetScenario()
 			continue
 		}
 		for j := 0; j < nOps; j++ {
@@ -2824,6 +2973,62 @@ func (w *world) txScenario() {
 	w.opBlock(1)
 }
 
+// freshTargetScenario: the target is an address that does not exist on chain (no account), and the source holds no liquid
+// coin (everything delegated, unbonding or sent away): the bank handler has nothing to send, so the target still has no
+// account after the accepted migration — and must nevertheless be refused as source or target of any later migration.
+func (w *world) freshTargetScenario() {
+	u1, u2, u3, u4 := w.byID[1], w.byID[2], w.byID[3], w.byID[4]
+	fresh, e2 := w.byID[idFresh], w.byID[12]
+	stake := func(a *actor, vi int, units int64) {
+		n := w.amt(units)
+		res, rw := w.withReward(a, func() sdkmath.Int { return n }, func() string {
+			return w.exec(&stakingtypes.MsgDelegate{DelegatorAddress: a.addr.String(), ValidatorAddress: w.valStr(vi), Amount: w.coin(n)})
+		})
+		w.emit(fmt.Sprintf("delegate %d %d %s %s", a.id, 100+vi, n, rw), kind(res))
+	}
+	unstake := func(a *actor, vi int, units int64) {
+		n := w.amt(units)
+		res, rw := w.withReward(a, func() sdkmath.Int { return sdkmath.ZeroInt() }, func() string {
+			return w.exec(&stakingtypes.MsgUndelegate{DelegatorAddress: a.addr.String(), ValidatorAddress: w.valStr(vi), Amount: w.coin(n)})
+		})
+		w.emit(fmt.Sprintf("undelegate %d %d %s %s", a.id, 100+vi, n, rw), kind(res))
+	}
+	mig := func(when string, from, to *actor) {
+		res := w.migrate(from.id, from.addr, to, to.id, "ft", w.sign(to.eth, from.addr, to.addr), "ok")
+		acc := w.s.App.AccountKeeper.GetAccount(w.s.Ctx, to.addr)
+		w.out.Count(fmt.Sprintf("fresh-target-scenario:%s=%s,target-has-account=%v", when, res, acc != nil))
+	}
+	stake(u1, 0, 100)
+	stake(u1, 1, 40)
+	w.opBlock(3)
+	unstake(u1, 0, 10)
+	for di, d := range w.denoms { // every liquid coin leaves the source
+		if bal := w.s.App.BankKeeper.GetBalance(w.s.Ctx, u1.addr, d).Amount; bal.IsPositive() {
+			res := w.exec(&banktypes.MsgSend{FromAddress: u1.addr.String(), ToAddress: u3.addr.String(), Amount: sdk.NewCoins(sdk.NewCoin(d, bal))})
+			w.emit(fmt.Sprintf("send %d %d %d %s", u1.id, u3.id, di, bal), kind(res))
+		}
+	}
+	w.opBlock(2)
+	mig("no-liquid-coin-source-to-fresh-address", u1, fresh) // accepted; nothing is sent: the target gets no account
+	mig("old-target-without-account-as-target", u2, fresh)   // must be refused: already used
+	w.opBlock(1)
+	// a source that holds nothing at all: the migration is accepted and moves nothing; the target has neither account nor
+	// record of its own afterwards, and is used up all the same
+	u5, fresh2 := w.byID[5], w.byID[idFresh+1]
+	for di, d := range w.denoms {
+		if bal := w.s.App.BankKeeper.GetBalance(w.s.Ctx, u5.addr, d).Amount; bal.IsPositive() {
+			res := w.exec(&banktypes.MsgSend{FromAddress: u5.addr.String(), ToAddress: u3.addr.String(), Amount: sdk.NewCoins(sdk.NewCoin(d, bal))})
+			w.emit(fmt.Sprintf("send %d %d %d %s", u5.id, u3.id, di, bal), kind(res))
+		}
+	}
+	mig("empty-source-to-fresh-address", u5, fresh2)
+	mig("old-target-without-account-or-records-as-target", u2, fresh2) // must be refused: already used
+	mig("ordinary-source-to-funded-address", u4, e2)
+	mig("old-target-without-account-as-target-again", u3, fresh)
+	w.opBlock(unbondSecs)
+	w.opBlock(1)
+}
+
 // chainScenario: every way an address of an accepted migration can come back in another role
 func (w *world) chainScenario() {
 	mig := func(from, to *actor) {
@@ -2838,6 +3043,9 @@ func (w *world) chainScenario() {
 	mig(d4, e1) // old target as source
 	mig(d6, d5) // the pair reversed
 	w.opBlock(7)
+	if os.Getenv("VERIF_C14_GENESIS") == "1" {
+		w.opGenesisRoundTrip() // a restart from the exported genesis between the migrations: the one-shot records survive it
+	}
 	mig(u1, e2) // old source again
 	mig(u3, d4) // old target again
 	mig(u1, d4) // the same pair again
